@@ -157,8 +157,20 @@ def binop(ex, op, a, b, st, ctx):
     if _scalar(a) and _scalar(b):
         return _z3op(ex, op, a, b, ctx)
     if isinstance(a, SeqVal) or isinstance(b, SeqVal):
-        raise Havoc("array arithmetic")
+        return _seq_elementwise(ex, op, a, b, st, ctx)
     raise Havoc("operands %s, %s" % (type(a).__name__, type(b).__name__))
+
+
+def _seq_elementwise(ex, op, a, b, st, ctx):
+    """numpy broadcasting of a 1-D array with a scalar (or an equally long array): a z3 lambda array (A3)."""
+    i = z3.Int(fresh_name("i"))
+    ea = z3.Select(a.arr, i) if isinstance(a, SeqVal) else to_z3(a)
+    eb = z3.Select(b.arr, i) if isinstance(b, SeqVal) else to_z3(b)
+    if not (_scalar(ea) and _scalar(eb)):
+        raise Havoc("array arithmetic with non-scalar")
+    body = _z3op(ex, op, ea, eb, ctx)
+    length = a.length if isinstance(a, SeqVal) else b.length
+    return SeqVal(z3.Lambda([i], to_real(body)), length, "Real")
 
 
 def _concrete(op, a, b):
@@ -412,12 +424,27 @@ def _contains(ex, container, item, st):
 # ----------------------------------------------------------------------------------------------
 # subscripts
 # ----------------------------------------------------------------------------------------------
+class OutOfBounds(Exception):
+    def __init__(self, cond):
+        self.cond = cond          # z3 Bool: index is in range
+
+
 def _norm_index(ex, seq, idx, st, ctx, node, what):
     n = seq.length
     i = to_z3(idx)
     if not z3.is_int(i):
         raise Havoc("non-integer index")
-    if not ctx.spec:
+    if not ctx.spec and getattr(ex, "oob_raises", False) and what == "load":
+        # numpy semantics: an out-of-range index raises IndexError (the caller forks on this condition)
+        inr = z3.And(i >= -n, i < n)
+        s = z3.Solver()
+        s.set("timeout", 2000)
+        for a in ex.global_axioms + st.pc:
+            s.add(a)
+        s.add(z3.Not(inr))
+        if s.check() != z3.unsat:
+            raise OutOfBounds(inr)
+    elif not ctx.spec:
         ex.prove(st, ctx, z3.And(i >= -n, i < n), "index-in-bounds",
                  "index-in-bounds:%s@L%s" % (what, getattr(node, "lineno", "?")), getattr(node, "lineno", None))
     if isinstance(idx, int):
@@ -457,6 +484,17 @@ def subscript(ex, v, idx, st, ctx, node=None):
         if isinstance(idx, tuple) and len(idx) == 2 and idx[0] is Ellipsis:
             idx = idx[1]
         return _vec_index(v.items, idx)
+    if isinstance(v, Ref) and st.obj(v).kind == "matrix":
+        rows = st.obj(v).items
+        if isinstance(idx, tuple) and len(idx) == 2:
+            r, c = idx
+            if isinstance(r, int) and isinstance(c, int):
+                return rows[r][c]
+            if isinstance(r, slice) and r == slice(None) and isinstance(c, int):
+                return ConcVec(row[c] for row in rows)
+            if isinstance(r, int) and isinstance(c, slice) and c == slice(None):
+                return ConcVec(rows[r])
+        raise Havoc("matrix index %r" % (idx,))
     if isinstance(v, Ref) and st.obj(v).kind == "stages":
         items = tuple(st.obj(v).items)
         if isinstance(idx, tuple) and len(idx) == 2 and idx[0] is Ellipsis:
@@ -487,6 +525,11 @@ def subscript(ex, v, idx, st, ctx, node=None):
             if idx in o.items:
                 return o.items[idx]
             raise Havoc("missing dict key %r" % (idx,))
+        if o.kind == "dictview":
+            tgt = st.obj(o.fields["target"])
+            if idx in tgt.fields:
+                return tgt.fields[idx]
+            raise Havoc("missing attribute %r in __dict__" % (idx,))
         hook = ex.call_hooks.get("getitem:" + o.cls)
         if hook:
             return hook(ex, st, ctx, v, idx)
@@ -495,9 +538,9 @@ def subscript(ex, v, idx, st, ctx, node=None):
         if idx is None:
             return v
         if isinstance(idx, slice):
-            if idx.step is not None:
-                raise Havoc("stepped slice")
             lo, hi = idx.start, idx.stop
+            if idx.step is not None and not (isinstance(idx.step, int) and idx.step == 1 and (lo is None or (isinstance(lo, int) and lo == 0))):
+                return st.new_obj("SeqSlice", fields=dict(base=v, lo=lo if lo is not None else 0, hi=hi if hi is not None else v.length, step=idx.step))
             if lo is None or (isinstance(lo, int) and lo == 0):
                 if hi is None:
                     return v
@@ -505,7 +548,8 @@ def subscript(ex, v, idx, st, ctx, node=None):
                 h = z3.If(h < 0, v.length + h, h) if not (isinstance(hi, int) and hi >= 0) else h
                 newlen = z3.If(h < v.length, z3.If(h < 0, z3.IntVal(0), h), v.length)
                 return SeqVal(v.arr, z3.simplify(newlen), v.elem)
-            raise Havoc("general slice")
+            return st.new_obj("SeqSlice", fields=dict(base=v, lo=lo if lo is not None else 0, hi=hi if hi is not None else v.length,
+                                                      step=idx.step if idx.step is not None else 1))
         if isinstance(idx, tuple):
             raise Havoc("multi-axis index")
         if is_z3(idx) and z3.is_bool(idx):
@@ -534,6 +578,22 @@ def store(ex, base, idx, v, st, ctx, node=None):
     """Returns IN_PLACE (heap mutated) or the new value to assign back to the base expression."""
     if isinstance(base, Opaque):
         return Opaque("store")
+    if isinstance(base, ConcVec):
+        if isinstance(idx, int):
+            items = list(base.items)
+            items[idx] = v
+            return ConcVec(items)
+        raise Havoc("vector store %r" % (idx,))
+    if isinstance(base, Ref) and st.obj(base).kind == "matrix":
+        rows = st.obj(base).items
+        if isinstance(idx, tuple) and len(idx) == 2 and isinstance(idx[0], slice) and idx[0] == slice(None) and isinstance(idx[1], int):
+            col = list(v.items) if isinstance(v, ConcVec) else [v] * len(rows)
+            if len(col) != len(rows):
+                raise Havoc("column length mismatch")
+            for r, x in zip(rows, col):
+                r[idx[1]] = x
+            return IN_PLACE
+        raise Havoc("matrix store %r" % (idx,))
     if isinstance(base, Ref) and st.obj(base).kind == "stages":
         o = st.obj(base)
         if isinstance(idx, tuple) and len(idx) == 2 and idx[0] is Ellipsis and isinstance(idx[1], int):
@@ -552,6 +612,12 @@ def store(ex, base, idx, v, st, ctx, node=None):
         if o.kind == "dict":
             o.items[idx] = v
             return IN_PLACE
+        if o.kind == "dictview":
+            t = o.fields["target"]
+            if isinstance(t, Ref):
+                st.obj(t).fields[idx] = v
+                return IN_PLACE
+            raise Havoc("__dict__ of a non-object")
         hook = ex.call_hooks.get("setitem:" + o.cls)
         if hook:
             hook(ex, st, ctx, base, idx, v)
@@ -601,6 +667,8 @@ def method(ex, v, name, args, kwargs, st, ctx):
                     if _struct_eq(x, args[0], st) is True:
                         return i
                 raise Havoc("list.index")
+        if o.kind == "matrix" and name in ("reshape", "to", "astype"):
+            return v
         if o.kind == "dict":
             if name == "get":
                 return o.items.get(args[0], args[1] if len(args) > 1 else None)
@@ -623,6 +691,11 @@ def method(ex, v, name, args, kwargs, st, ctx):
                 return st.new_obj("dict", "dict", items=dict(o.items))
         raise Havoc("method %s of %s" % (name, o.kind))
     if isinstance(v, str):
+        if "<" not in v and all(isinstance(a, str) and "<" not in a for a in args):
+            if name == "replace":
+                return v.replace(*args)
+            if name in ("startswith", "endswith"):
+                return getattr(v, name)(*args)
         return "<str>"
     if isinstance(v, Opaque):
         return Opaque(name)
@@ -631,6 +704,8 @@ def method(ex, v, name, args, kwargs, st, ctx):
             return v
         if name in ("all", "any"):
             return TABLE["D.ar_numpy." + name](ex, st, ctx, [v], {})
+    if isinstance(v, ConcVec) and name in ("reshape", "copy", "astype", "to"):
+        return v
     if isinstance(v, SeqVal):
         if name in ("copy", "astype", "to", "clone"):
             return v
@@ -670,6 +745,10 @@ def _unary(fn):
 
 
 def _abs(ex, v, ctx):
+    if isinstance(v, SeqVal):
+        i = z3.Int(fresh_name("i"))
+        e = z3.Select(v.arr, i)
+        return SeqVal(z3.Lambda([i], z3.If(e >= 0, e, -e)), v.length, v.elem)
     if _num(v):
         return abs(v)
     if is_z3(v):
@@ -735,6 +814,8 @@ def _zeros_like_val(dtype, one=False):
 @reg("D.ar_numpy.zeros_like")
 def _zeros_like(ex, st, ctx, args, kwargs):
     v = args[0]
+    if isinstance(v, ConcVec):
+        return ConcVec([Fraction(0)] * len(v))
     if _scalar(v):
         return _zeros_like_val(kwargs.get("dtype"))
     if isinstance(v, LinComb):
@@ -911,9 +992,23 @@ def _len(ex, st, ctx, args, kwargs):
     raise Havoc("len of %s" % type(v).__name__)
 
 
+@reg("D.ar_numpy.zeros")
+def _zeros(ex, st, ctx, args, kwargs):
+    shape = args[0]
+    if isinstance(shape, tuple) and all(isinstance(k, int) for k in shape):
+        if len(shape) == 1:
+            return ConcVec([Fraction(0)] * shape[0])
+        if len(shape) == 2:
+            return st.new_obj("matrix", "matrix", items=[[Fraction(0)] * shape[1] for _ in range(shape[0])])
+    raise Havoc("zeros of shape %r" % (shape,))
+
+
 @reg("D.ar_numpy.shape", "numpy.shape")
 def _shape(ex, st, ctx, args, kwargs):
     v = args[0]
+    if isinstance(v, Ref) and st.obj(v).kind == "matrix":
+        rows = st.obj(v).items
+        return (len(rows), len(rows[0]) if rows else 0)
     if isinstance(v, TabVal):
         return v.shape
     if isinstance(v, ConcVec):
@@ -1267,3 +1362,25 @@ def _apply(ex, st, ctx, args, kwargs):
     if isinstance(f, UFunc) and f.mode == "real":
         return ex.uf(f.name, len(args) - 1)(*[to_real(a) for a in args[1:]])
     raise Havoc("apply")
+
+
+@reg("is_exc")
+def _is_exc(ex, st, ctx, args, kwargs):
+    from .executor import exc_is_subclass
+    e, name = args
+    return isinstance(e, ExcVal) and exc_is_subclass(e.cls, name)
+
+
+@reg("D.ar_numpy.argmin", "numpy.argmin")
+def _argmin(ex, st, ctx, args, kwargs):
+    """A3: argmin of a non-empty 1-D array returns an in-range index of a minimal element."""
+    v = args[0]
+    if not isinstance(v, SeqVal):
+        raise Havoc("argmin")
+    r = z3.Int(fresh_name("argmin"))
+    k = z3.Int(fresh_name("k"))
+    if not ctx.spec:
+        ex.prove(st, ctx, v.length >= 1, "pre@callsite", "pre@callsite:argmin-nonempty")
+    st.assume(z3.And(r >= 0, r < v.length))
+    st.assume(z3.ForAll([k], z3.Implies(z3.And(k >= 0, k < v.length), z3.Select(v.arr, r) <= z3.Select(v.arr, k))))
+    return r
